@@ -75,20 +75,27 @@ def strip_value_preserving(e):
         e = e2
 
 
-def prov(e, env=None):
+def prov(e, env=None, _depth=0):
     """provenance of a value: ('sel', root, attr, selector-text) | ('whole', root, attr)
-    | ('concat', [..]) | ('fresh', text)"""
-    if env:
-        e = inline(e, env)
+    | ('concat', [..]) | ('fresh', text).  A local name is followed through its single
+    definition only while that definition is itself a pure view (sel/whole/concat)."""
     e = strip_value_preserving(e)
     if isinstance(e, ast.Subscript):
         b = strip_value_preserving(e.value)
         if isinstance(b, ast.Attribute) and is_path(b.value):
             return ("sel", U(b.value), b.attr, U(e.slice))
+        if isinstance(b, ast.Name) and env and b.id in env and _depth < 6:
+            p = prov(env[b.id], env, _depth + 1)
+            if p[0] == "whole":
+                return ("sel", p[1], p[2], U(e.slice))
     if isinstance(e, ast.Attribute) and is_path(e.value):
         return ("whole", U(e.value), e.attr)
     if isinstance(e, ast.Call) and call_name(e) == "np.concatenate" and e.args and isinstance(e.args[0], (ast.List, ast.Tuple)):
-        return ("concat", [prov(x) for x in e.args[0].elts])
+        return ("concat", [prov(x, env, _depth + 1) for x in e.args[0].elts])
+    if isinstance(e, ast.Name) and env and e.id in env and _depth < 6:
+        p = prov(env[e.id], env, _depth + 1)
+        if p[0] != "fresh":
+            return p
     return ("fresh", U(e))
 
 
